@@ -35,7 +35,7 @@ FLOORS = {"programs:rejected": 0.5}
 REJECT_KINDS = ["ctor_dup", "ctor_parent_collision", "replace_dup", "replace_parent_collision", "attach_collision",
                 "id_collision", "replace_forbidden", "replace_with_parent", "replace_with_type", "replace_with_optional",
                 "replace_with_attach_fails", "transform_raises", "transform_illtyped", "ctor_grandchild_collision",
-                "replace_with_stale_receiver"]
+                "replace_with_stale_receiver", "shared_detached_twice"]
 
 
 class NotApplicable(Exception):
@@ -185,6 +185,13 @@ def do_rejected(r: c18.Runner, o: list, lab: Labels) -> str:
                 raise NotApplicable
             lab.tag("stale-receiver")
             return n.replace_with(roots[b % len(roots)])
+        if kind == "shared_detached_twice":
+            # one detached node object referenced by two detached parents (neither owns it); both
+            # parents under one root that is being attached
+            lab.tag("shared-detached-node")
+            if c % 2:
+                return prepared["root"].attach()
+            return L.cls("LInner")(items=(*good[:1], prepared["p1"], prepared["p2"]), origin=w.origin(0))
         if kind in ("transform_raises", "transform_illtyped"):
             n = w.sel(a, lambda x: not x.detached and all(not y.detached for y in E.subtree(x)))
             if n is None:
@@ -225,6 +232,18 @@ def do_rejected(r: c18.Runner, o: list, lab: Labels) -> str:
     prepared: dict = {}
     if kind == "replace_with_type":
         prepared["inner"] = w.hold(L.cls("LInner")(origin=w.origin(0), v=2))  # created before the snapshot
+    if kind == "shared_detached_twice":
+        sh = L.cls("LLeaf")(v=b % 3, origin=w.origin(0), create_detached=True)
+        if b % 2:
+            sh = L.cls("LInner")(req=sh, origin=w.origin(0), create_detached=True)  # a shared subtree
+        prepared["p1"] = L.cls("LInner")(items=(sh,), v=1, origin=w.origin(0), create_detached=True)
+        prepared["p2"] = L.cls("LInner")(opt=sh, v=2, origin=w.origin(0), create_detached=True) if a % 2 else \
+            L.cls("LInner")(lst=[sh], v=2, origin=w.origin(0), create_detached=True)
+        w.hold(prepared["p1"])
+        w.hold(prepared["p2"])
+        if c % 2:
+            prepared["root"] = w.hold(L.cls("LInner")(items=(prepared["p1"], prepared["p2"]), v=3, origin=w.origin(0),
+                                                      create_detached=True))
     before = w.snapshot()
     try:
         res = call()
